@@ -143,6 +143,15 @@ func (v *Verifier) callFunc(st *State, call *ssa.CallCommon, fn *ssa.Function, b
 		return
 	}
 	fc := v.e.ct.Funcs[key]
+	if fc == nil {
+		for _, re := range v.e.ct.InlineRe {
+			if re.MatchString(key) {
+				fc = &FuncContract{Key: key, Inline: true, Loops: map[int][]*Clause{}}
+				v.e.ct.Funcs[key] = fc
+				break
+			}
+		}
+	}
 	if fc != nil && !fc.Inline {
 		res := v.applyContract(st, fc, fn.Signature, v.paramNames(fn, fc), args, ins, shortKey(key))
 		k(st, res)
@@ -1021,6 +1030,7 @@ type loopEffects struct {
 	freeVars  []*ssa.FreeVar
 	allocs    []*ssa.Alloc
 	lockCalls []*ssa.Call // Lock / Wait calls: guarded fields of the owner change
+	appends   []ssa.Value // first arguments of append calls: their backing array may be written
 }
 
 func rootOfAddr(v ssa.Value) ssa.Value {
@@ -1080,9 +1090,38 @@ func (v *Verifier) loopEffectsOf(li *LoopInfo) *loopEffects {
 						continue
 					}
 				}
+				if b, ok := ins.Call.Value.(*ssa.Builtin); ok && b.Name() == "append" {
+					// append writes the backing array of its first argument (or a fresh one)
+					if ld, ok := ins.Call.Args[0].(*ssa.UnOp); ok && ld.Op == token.MUL {
+						if _, isAlloc := ld.X.(*ssa.Alloc); isAlloc {
+							eff.appends = append(eff.appends, ins.Call.Args[0])
+							continue
+						}
+					}
+				}
 				if !v.callIsPure(&ins.Call) {
 					// a call through a function value modifies only what its arguments reach (see dispatchCall)
 					if !ins.Call.IsInvoke() && ins.Call.StaticCallee() == nil {
+						// a local variable that only ever holds one closure literal of this function
+						if ld, ok := ins.Call.Value.(*ssa.UnOp); ok && ld.Op == token.MUL {
+							if a, ok := ld.X.(*ssa.Alloc); ok {
+								var only *ssa.Function
+								n := 0
+								if refs := a.Referrers(); refs != nil {
+									for _, r := range *refs {
+										if s, ok := r.(*ssa.Store); ok && s.Addr == a {
+											n++
+											if mc, ok := s.Val.(*ssa.MakeClosure); ok {
+												only, _ = mc.Fn.(*ssa.Function)
+											}
+										}
+									}
+								}
+								if n == 1 && only != nil && v.bodyIsPure(only, 0) {
+									continue
+								}
+							}
+						}
 						if _, isBuiltin := ins.Call.Value.(*ssa.Builtin); !isBuiltin {
 							ok := true
 							for _, a := range ins.Call.Args {
@@ -1124,13 +1163,27 @@ func (v *Verifier) callIsPure(c *ssa.CallCommon) bool {
 		}
 		return false
 	}
+	// a contract without modifies clause promises to leave existing memory alone
+	frameOnly := func(fc *FuncContract) bool {
+		return fc != nil && !fc.Inline && !fc.ModAll && len(fc.Modifies) == 0
+	}
 	if c.IsInvoke() {
 		fc := v.e.ct.Funcs[v.ifaceKey(c.Method)]
-		return fc != nil && fc.Pure
+		return fc != nil && (fc.Pure || frameOnly(fc))
 	}
 	if fn := c.StaticCallee(); fn != nil {
-		fc := v.e.ct.Funcs[funcKey(fn)]
-		if fc != nil && fc.Pure {
+		key := funcKey(fn)
+		fc := v.e.ct.Funcs[key]
+		if fc == nil {
+			for _, re := range v.e.ct.InlineRe {
+				if re.MatchString(key) {
+					fc = &FuncContract{Key: key, Inline: true, Loops: map[int][]*Clause{}}
+					v.e.ct.Funcs[key] = fc
+					break
+				}
+			}
+		}
+		if fc != nil && (fc.Pure || frameOnly(fc)) {
 			return true
 		}
 		if fc != nil && fc.Inline {
@@ -1187,6 +1240,11 @@ func (v *Verifier) havocLoop(st *State, li *LoopInfo) {
 		fr.cells[a] = st.freshValue("lp_"+name, derefType(a.Type()))
 	}
 	eff := v.loopEffectsOf(li)
+	if len(eff.lockCalls) > 0 && len(st.held) == 0 {
+		// lock not held at the loop head: the next acquisition is relative to the loop-head state
+		st.lastRel = nil
+		st.loopBasePending = true
+	}
 	// addresses that the loop body lets escape are no longer private from the first iteration on
 	for b := range li.Blocks {
 		for _, ins := range b.Instrs {
@@ -1224,6 +1282,21 @@ func (v *Verifier) havocLoop(st *State, li *LoopInfo) {
 		for _, a := range eff.allocs {
 			if p, ok := fr.regs[a]; ok && p.cell == nil {
 				st.storeAt(p.L[0], p.L[1], st.freshValue("lp_"+a.Comment, derefType(a.Type())))
+			}
+		}
+		for _, ap := range eff.appends {
+			if ld, ok := ap.(*ssa.UnOp); ok {
+				if a, isAlloc := ld.X.(*ssa.Alloc); isAlloc {
+					if _, exists := fr.regs[a]; !exists {
+						continue // declared inside the loop: allocated afresh in each iteration
+					}
+				}
+			}
+			if sv, ok := v.tryEval(st, ap); ok && sv.cell == nil && len(sv.L) == 4 {
+				// contents are havocked after the invariant has told us what the (new) header is
+				st.pendingHavoc = append(st.pendingHavoc, sv.L[0])
+			} else {
+				st.havocAll()
 			}
 		}
 		for _, lc := range eff.lockCalls {
@@ -1352,7 +1425,12 @@ func (v *Verifier) havocForLockCall(st *State, c *ssa.Call) {
 		return
 	}
 	stt := named.Underlying().(*types.Struct)
+	var mus []string
 	for mu := range tc.GuardedBy {
+		mus = append(mus, mu)
+	}
+	sort.Strings(mus)
+	for _, mu := range mus {
 		prev := st.snapshot()
 		v.havocGuarded(st, owner, named, tc, mu)
 		// if the lock is held at the loop head the monitor invariant holds there as well
